@@ -31,6 +31,8 @@ ROOT = os.path.dirname(os.path.dirname(os.path.abspath(__file__)))
 EXIT_OK, EXIT_VIOLATION, EXIT_INCONCLUSIVE, EXIT_HARNESS = 0, 1, 2, 3
 ROBUST_FACTORS = [10**6, 10**3, 10]
 OBLIG_TIMEOUT_MS = int(os.environ.get("VERIF_OBLIG_TIMEOUT_MS", "20000"))
+XCHECK_RATE = float(os.environ.get("VERIF_XCHECK_RATE", "0.02"))  # thorough tier: share of solver-discharged obligations re-decided by cvc5
+XCHECK_CAP = int(os.environ.get("VERIF_XCHECK_CAP", "60"))  # per worker chunk
 
 
 class Raised:
@@ -174,7 +176,7 @@ def eval_prop_concrete(mod, cfg, spec, vals, name):
 
 class Stats:
     FIELDS = ["items", "paths", "paths_raised", "obligations", "simp", "unsat", "sat", "unknown", "feas_queries",
-              "feas_unknown", "inconclusive_items", "canary_ok", "canary_bad", "tv_samples", "tv_leaves", "tv_bad", "transitions", "replayed"]
+              "feas_unknown", "inconclusive_items", "canary_ok", "canary_bad", "tv_samples", "tv_leaves", "tv_bad", "transitions", "replayed", "x_checked", "x_agree", "x_unknown", "x_disagree"]
 
     def __init__(self):
         for f in self.FIELDS:
@@ -208,6 +210,32 @@ def _prop_by_name(mod, cfg, T, obs, name):
         if n == name:
             return P
     return None
+
+
+def cvc5_verdict(smt2_text, timeout_ms=8000):
+    """second solver: re-decide an exported obligation with the cvc5 python wheel (one fresh solver per query)"""
+    try:
+        import cvc5
+    except ImportError:
+        return "unavailable"
+    try:
+        slv = cvc5.Solver()
+        slv.setOption("tlimit-per", str(timeout_ms))
+        slv.setLogic("ALL")
+        prs = cvc5.InputParser(slv)
+        prs.setStringInput(cvc5.InputLanguage.SMT_LIB_2_6, smt2_text, "obligation")
+        sm = prs.getSymbolManager()
+        res = "unknown"
+        while True:
+            cmd = prs.nextCommand()
+            if cmd.isNull():
+                break
+            out = str(cmd.invoke(slv, sm)).strip()
+            if out in ("sat", "unsat", "unknown"):
+                res = out
+        return res
+    except Exception as e:  # noqa - any parser/solver error is inconclusive, never a verdict
+        return "error:%s" % type(e).__name__
 
 
 def _solve(pc, negP, timeout_ms):
@@ -310,6 +338,16 @@ def process_item(mod, cfg, st, rng, tier):
             st.hashes.add(h)
             r, s, dt = _solve(p.pc, z3.Not(P), OBLIG_TIMEOUT_MS)
             st.solver_s += dt
+            if tier == "thorough" and r in (z3.unsat, z3.sat) and rng.random() < XCHECK_RATE and st.x_checked < XCHECK_CAP:
+                st.x_checked += 1
+                v2 = cvc5_verdict(s.to_smt2())
+                if v2 == str(r):
+                    st.x_agree += 1
+                elif v2 in ("sat", "unsat"):
+                    st.x_disagree += 1
+                    st.errors.append("solver disagreement: z3 %s, cvc5 %s on %s %s" % (r, v2, name, json.dumps(cfg)[:200]))
+                else:
+                    st.x_unknown += 1
             if len(st.samples) < 4 and not is_canary and r == z3.unsat:
                 st.samples.append({"cfg": cfg, "obligation": name, "path_condition": [str(c)[:300] for c in p.pc][:8],
                                    "claim": str(Ps)[:600], "verdict": "unsat(negation)", "solver_s": round(dt, 4)})
@@ -636,6 +674,8 @@ def finish(mod, tier, seed, total, n_cfgs, wall, extra=None):
             "inconclusive_configurations": total.inconclusive_items,
             "canaries_refuted_and_replayed": total.canary_ok,
             "translator_validation": {"paths": total.tv_samples, "leaves_compared": total.tv_leaves, "mismatches": total.tv_bad},
+            "second_solver": {"solver": "cvc5 (python wheel)", "obligations_rechecked": total.x_checked, "agree": total.x_agree, "cvc5_unknown_or_timeout": total.x_unknown,
+                              "disagree": total.x_disagree, "note": "thorough tier only: a seeded sample of z3-discharged obligations exported with Solver.to_smt2()"},
             "known_findings_observed": sorted(seen_known),
             "unreproduced_counterexamples": len(total.unreproduced),
             "solver_seconds": round(total.solver_s, 2),
